@@ -146,3 +146,154 @@ class EatFirst(_Eater):
 
 
 CONTRACTS = [EatLastHyphen(), EatLf(), EatFirst()]
+
+
+# ----------------------------------------------------------------------------------------- MatchTail.match_tail
+class MatchTailC(Contract):
+    """match_tail(s, start, end): does the window s[start:end] END with a non-empty head of the token?
+
+    index contract (established by MatchTail.__init__, assumed here): self.idx.get(b) is None iff the byte b does not occur in
+    the token, otherwise the ASCENDING list of ALL pairs [i, token[:i]] with token[i-1] == b (1-based i).
+    Proved:  a returned i satisfies  i <= end-start  and  s[end-i:end] == token[:i]   (soundness)
+             None is returned only if NO i <= end-start has s[end-i:end] == token[:i]   (completeness)
+             the returned i is the smallest such i (with a token whose first byte does not recur - CRLF--boundary, boundary
+             CR-free - there is at most one, so it is THE match)
+    """
+    props = ('C06',)
+    file = 'ombott/request_pkg/multipart.py'
+    qualname = 'MatchTail.match_tail'
+    assumptions = ('index contract of MatchTail.idx (built by MatchTail.__init__): ascending, exactly the positions of the byte',
+                   'precondition 0 <= start < end <= len(s) and end - start <= len(token)')
+    expected_labels = ('post.match_is_a_tail_equal_to_a_token_head', 'post.none_only_if_no_head_matches', 'post.smallest_match')
+
+    def pre(self, X):
+        self.s = X.fresh(BytesSort, 's')
+        self.T = X.fresh(BytesSort, 'token')
+        self.start, self.end = X.fresh(z3.IntSort(), 'start'), X.fresh(z3.IntSort(), 'end')
+        X.assume(z3.And(0 <= self.start, self.start < self.end, self.end <= L(self.s), L(self.T) >= 1,
+                        self.end - self.start <= L(self.T)))
+        self.b = self.s[self.end - 1]
+        self.pos = X.fresh(z3.SeqSort(z3.IntSort()), 'positions')     # the i's of idx[b]
+        self.present = X.choose(2, 'byte occurs in the token?') == 1
+        T, pos, b = self.T, self.pos, self.b
+        j, k, q = z3.Int('j!ix'), z3.Int('k!ix'), z3.Int('q!ix')
+        self.jof = X.driver.uf('index_of_position', z3.IntSort(), z3.IntSort())
+        if self.present:
+            X.assume(L(pos) >= 1)
+            X.assume(z3.ForAll([j], z3.Implies(z3.And(0 <= j, j < L(pos)), z3.And(pos[j] >= 1, pos[j] <= L(T), T[pos[j] - 1] == b))))
+            X.assume(z3.ForAll([j, k], z3.Implies(z3.And(0 <= j, j < k, k < L(pos)), pos[j] < pos[k])))
+            X.assume(z3.ForAll([q], z3.Implies(z3.And(1 <= q, q <= L(T), T[q - 1] == b),
+                                               z3.And(0 <= self.jof(q), self.jof(q) < L(pos), pos[self.jof(q)] == q))))
+        else:
+            X.assume(z3.ForAll([q], z3.Implies(z3.And(1 <= q, q <= L(T)), T[q - 1] != b)))
+        c = self
+
+        def idx_get(X, args, kwargs):
+            X.prove('index.looked_up_by_last_byte_of_the_window', args[1].t == z3.BV2Int(c.b))
+            if not c.present:
+                return NONE
+            return VSeqPairs(c)
+        self.stubs = {'Idx.get': idx_get}
+        me = VObj('MT', {'idx': VObj('Idx', {}), 'len': VInt(L(self.T)), 'token': VBytes(self.T)})
+        return {'self': me, 's': VBytes(self.s), 'start': VInt(self.start), 'end': VInt(self.end)}
+
+    def tail(self, i):
+        return z3.SubSeq(self.s, self.end - i, i)
+
+    def head(self, i):
+        return z3.SubSeq(self.T, 0, i)
+
+    def _inv(self, X):
+        n = X.v('__i0').t
+        j = z3.Int('j!inv')
+        slen = self.end - self.start
+        return [('checked_entries_fit_but_do_not_match',
+                 z3.And(n >= 0, n <= L(self.pos),
+                        z3.ForAll([j], z3.Implies(z3.And(0 <= j, j < n),
+                                                  z3.And(self.pos[j] <= slen, self.tail(self.pos[j]) != self.head(self.pos[j]))))))]
+
+    @property
+    def loop_inv(self):
+        return {0: self._inv}
+
+    def after_loop(self, X, k, how):
+        if k == 0 and how == 'guard':
+            X.record(exhausted=True)
+
+    def _no_match_claim(self, X, upto_exclusive=None):
+        """for an arbitrary i (skolem): 1 <= i <= slen and tail(i) == head(i) is impossible"""
+        i = X.fresh(z3.IntSort(), 'any_i')
+        slen = self.end - self.start
+        hyp = z3.And(1 <= i, i <= slen, self.tail(i) == self.head(i))
+        return i, hyp
+
+    def _final(self, X, label, i, goal):
+        """prove `goal` about the arbitrary position i from the quantifier-free part of the path condition plus hand-picked
+        INSTANCES of the quantified hypotheses (index contract, loop invariant) - instantiation only, hence sound"""
+        from pyvc.engine import Obligation
+        slen = self.end - self.start
+        T, pos, b = self.T, self.pos, self.b
+        qf = [c for c in X.pc if not _has_quantifier(c)]
+        inst = []
+        n = X.v('__i0').t if X.has_local('__i0') else None
+        if n is not None and not any('exhausted' in r for r in X.trace):
+            n = n - 1        # leaving from inside the body: the invariant was assumed for the entries BEFORE the current one
+            cur = n          # index of the current entry
+        else:
+            cur = None
+        if self.present:
+            J = self.jof(i)
+            inst.append(z3.Implies(z3.And(1 <= i, i <= L(T), T[i - 1] == b), z3.And(0 <= J, J < L(pos), pos[J] == i)))   # completeness at i
+            if n is not None:
+                inst.append(z3.And(n >= 0, n <= L(pos)))
+                inst.append(z3.Implies(z3.And(0 <= J, J < n), z3.And(pos[J] <= slen, self.tail(pos[J]) != self.head(pos[J]))))   # invariant at J
+                if cur is not None:
+                    for (a, c2) in ((J, cur), (cur, J)):
+                        inst.append(z3.Implies(z3.And(0 <= a, a < c2, c2 < L(pos)), pos[a] < pos[c2]))                      # ascending
+                    inst.append(z3.Implies(z3.And(0 <= cur, cur < L(pos)), z3.And(pos[cur] >= 1, pos[cur] <= L(T))))      # membership
+        else:
+            inst.append(z3.Implies(z3.And(1 <= i, i <= L(T)), T[i - 1] != b))
+        # a fact of sequence theory, proved separately below: equal windows end with the same byte
+        last = z3.Implies(z3.And(1 <= i, i <= slen, i <= L(T), self.tail(i) == self.head(i)), self.s[self.end - 1] == T[i - 1])
+        pre = [z3.And(0 <= self.start, self.start < self.end, self.end <= L(self.s))]
+        X.driver.add_obligation(Obligation('lemma.equal_windows_end_with_the_same_byte', pre, last, 'prove', X.where, list(X.taken)))
+        X.driver.add_obligation(Obligation(label, qf + inst + [last], goal, 'prove', X.where, list(X.taken), list(X.trace)))
+
+    def post(self, X, ret):
+        slen = self.end - self.start
+        i, hyp = self._no_match_claim(X)
+        if isinstance(ret, VNone):
+            self._final(X, 'post.none_only_if_no_head_matches', i, z3.Not(hyp))
+        else:
+            r = ret.t
+            X.prove('post.match_is_a_tail_equal_to_a_token_head', z3.And(1 <= r, r <= slen, self.tail(r) == self.head(r)))
+            self._final(X, 'post.smallest_match', i, z3.Implies(hyp, i >= r))
+
+    def post_raise(self, X, exc):
+        X.prove('raises.nothing', z3.BoolVal(False))
+
+
+from pyvc.engine import Val, VTuple, VSeq   # noqa: E402
+
+
+def _has_quantifier(t):
+    if z3.is_quantifier(t):
+        return True
+    return any(_has_quantifier(c) for c in t.children())
+
+
+class VSeqPairs(Val):
+    """idx[b]: the list of [i, token[:i]] pairs, iterated in order"""
+
+    def __init__(self, c):
+        self.c = c
+
+    def as_seq(self):
+        c = self.c
+        return VSeq(c.pos, lambda t: VTuple([VInt(t), VBytes(z3.SubSeq(c.T, 0, t))]))
+
+    def truth(self, X):
+        return z3.BoolVal(True)
+
+
+CONTRACTS.append(MatchTailC())
